@@ -15,6 +15,34 @@ def mask(n):
     return (1 << n) - 1
 
 
+def sel_values(n):
+    """Number of selector values to drive for an n-way Multiplexer/Demultiplexer, computed from the constructor
+    argument (documented selector range 0..max(n,2)-1, rounded up to the next power of two so that out-of-range
+    selections are exercised too) — never from the width of the signal in the code under test."""
+    return 1 << max(1, (max(n, 2) - 1).bit_length())
+
+
+def declared_widths(inst, data_bits, extra_ranges=()):
+    """Make the random generator of a StreamInst draw sink data and extra inputs from the ranges the constructor
+    arguments promise (not from the widths of the signals found in the code under test, which a code change may
+    shrink).  The unmasked values go to the model; the netlist truncates them as the hardware would."""
+    dmax = mask(data_bits)
+    extra_ranges = list(extra_ranges)
+
+    def gen(rng, t):
+        regime = (t // 64) % 5
+        pv = (0.5, 0.9, 0.1, 1.0, 0.5)[regime]
+        pr = (0.5, 0.1, 0.9, 1.0, 0.2)[regime]
+        v = 1 if rng.random() < pv else 0
+        r = 1 if rng.random() < pr else 0
+        d = rng.choice(inst.data_values) if rng.random() < 0.3 else rng.randint(0, dmax)
+        f = 1 if rng.random() < 0.2 else 0
+        l = 1 if rng.random() < 0.2 else 0
+        return (v, d, f, l, r) + tuple(rng.randrange(n) for n in extra_ranges)
+    inst.gen = gen
+    return inst
+
+
 def reduce_garbage(inst):
     """Keep every letter with sink.valid = 1 but only two garbage patterns (all fields 0 / all fields 1) when
     sink.valid = 0: enough to expose any dependence on an invalid sink, and keeps mode A small."""
@@ -304,9 +332,10 @@ class MuxInst:
     """letter = (sel, source.ready, (valid, data, first, last) per sink); outs = [source.valid, data, first,
     last, sink_k.ready...]."""
 
-    def __init__(self, name, module, n, tokens=None, data_values=(0, 1)):
+    def __init__(self, name, module, n, tokens=None, data_values=(0, 1), nb=None):
         import itertools
         self.name, self.module, self.n = name, module, n
+        self.nb = nb
         self.lean_open = "mux %d" % n
         self.netlist = Netlist(module)
         self.sinks = [getattr(module, "sink%d" % k) for k in range(n)]
@@ -314,7 +343,7 @@ class MuxInst:
         self.sdata = [PackedField(flat_payload(s)) for s in self.sinks]
         self.odata = PackedField(flat_payload(self.source))
         self.qual = [None, 0, 0, 0] + [None] * n
-        self.nsel = 1 << len(module.sel)
+        self.nsel = sel_values(n)           # from the constructor argument, not from len(module.sel)
         self.data_values = list(data_values)
         if tokens is None:
             tokens = [(0, 0, 0, 0), (1, 0, 0, 1), (1, 1, 1, 0), (0, 1, 1, 1)]   # (valid, data, first, last)
@@ -343,7 +372,7 @@ class MuxInst:
         return bool(outs[0] and letter[1])
 
     def gen(self, rng, t):
-        dmax = mask(self.odata.width)
+        dmax = mask(self.nb if self.nb is not None else self.odata.width)
         l = [rng.randrange(self.nsel) if rng.random() < 0.3 else (t // 16) % self.nsel, int(rng.random() < 0.6)]
         for k in range(self.n):
             l += [int(rng.random() < 0.6), rng.randint(0, dmax), int(rng.random() < 0.2), int(rng.random() < 0.2)]
@@ -382,9 +411,10 @@ class DemuxInst:
     """letter = (sel, sink.valid, data, first, last, source_k.ready...); outs = [sink.ready, (valid, data, first,
     last) per source]."""
 
-    def __init__(self, name, module, n, tokens=None):
+    def __init__(self, name, module, n, tokens=None, nb=None):
         import itertools
         self.name, self.module, self.n = name, module, n
+        self.nb = nb
         self.lean_open = "demux %d" % n
         self.netlist = Netlist(module)
         self.sink = module.sink
@@ -394,7 +424,7 @@ class DemuxInst:
         self.qual = [None]
         for k in range(n):
             self.qual += [None, 1 + 4 * k, 1 + 4 * k, 1 + 4 * k]
-        self.nsel = 1 << len(module.sel)
+        self.nsel = sel_values(n)           # from the constructor argument, not from len(module.sel)
         if tokens is None:
             tokens = [(0, 0, 0, 0), (0, 1, 1, 1), (1, 0, 0, 1), (1, 1, 1, 0), (1, 1, 0, 0), (1, 0, 1, 1)]
         self.alphabet = [(sel,) + tuple(t) + tuple(rs) for sel in range(self.nsel) for t in tokens
@@ -422,7 +452,7 @@ class DemuxInst:
         return bool(letter[1] and outs[0])
 
     def gen(self, rng, t):
-        dmax = mask(self.sdata.width)
+        dmax = mask(self.nb if self.nb is not None else self.sdata.width)
         return (rng.randrange(self.nsel) if rng.random() < 0.3 else (t // 16) % self.nsel,
                 int(rng.random() < 0.7), rng.randint(0, dmax), int(rng.random() < 0.2), int(rng.random() < 0.2)) + \
             tuple(int(rng.random() < 0.6) for _ in range(self.n))
